@@ -46,16 +46,55 @@ def normTok (t : String) : String :=
 def normalize (s : String) : String :=
   " ".intercalate (((s.splitOn " ").filter (· ≠ "")).map normTok)
 
-inductive Obj
-  | raw (v : RawVec) | iv (v : IntVec) | bv (v : BitVector) | sp (v : Sparse) | rl (v : RL) | wm (v : WM)
+structure RawObj where
+  m : RawVec
+  s : List Bool
+  deriving Inhabited
+
+structure IvObj where
+  m : IntVec
+  w : Nat
+  s : List Nat
+  deriving Inhabited
+
+structure BvObj where
+  m : BitVector
+  s : List Bool
+  deriving Inhabited
+
+/-- sparse vector: model + reference (universe, sorted values, multiset flag) -/
+structure SpObj where
+  m : Sparse
+  n : Nat
+  vals : List Nat
+  deriving Inhabited
+
+/-- run-length vector: model + reference (length, sorted set positions as runs) -/
+structure RlObj where
+  m : RL
+  len : Nat
+  runs : List (Nat × Nat)
+  deriving Inhabited
+
+structure WmObj where
+  m : WM
+  vals : List Nat
   deriving Inhabited
 
 structure DState where
   mode : Mode := .checked
   bmi2 : Bool := true
-  objs : Std.HashMap String Obj := {}
+  raws : Std.HashMap String RawObj := {}
+  ivs : Std.HashMap String IvObj := {}
+  bvs : Std.HashMap String BvObj := {}
+  sps : Std.HashMap String SpObj := {}
+  rls : Std.HashMap String RlObj := {}
+  wms : Std.HashMap String WmObj := {}
   regimes : Std.HashMap String Nat := {}
   deriving Inhabited
+
+def DState.reset (st : DState) : DState :=
+  { st with raws := {}, ivs := {}, bvs := {}, sps := {}, rls := {}, wms := {} }
 
 def DState.note (st : DState) (r : String) : DState :=
   { st with regimes := st.regimes.insert r (st.regimes.getD r 0 + 1) }
